@@ -322,19 +322,16 @@ func genWsCase(huge bool) func(t *rapid.T) WsCase {
 func runWs(c WsCase) *pbt.Violation {
 	s := newServer()
 	defer s.Close()
-	var fd *feed
-	if c.rtsp().subscriberSide() {
-		var v *pbt.Violation
-		if fd, v = startFeed(s); v != nil {
-			return v
-		}
+	fd, v := startFeed(s)
+	if v != nil {
+		return v
 	}
 	conn, wait := wsConn(s, c.Upgrade)
 	defer conn.Close()
-	if v := deliverRtsp(s, conn, c.wire(), c.Slices, fd, c.FeedAfter, wait, "rtsp.(*WebsocketServer).HandleWebsocket", "ws-rtsp"); v != nil {
+	if v := deliverRtsp(s, conn, c.wire(), c.Slices, fd, c.FeedAfter, nil, wait, "rtsp.(*WebsocketServer).HandleWebsocket", "ws-rtsp"); v != nil {
 		return v
 	}
-	return probe(s)
+	return probe(s, fd)
 }
 
 func classifyWs(c WsCase) (bool, []string) {
@@ -412,6 +409,7 @@ func classifyWs(c WsCase) (bool, []string) {
 }
 
 func TestRtspWebsocket(t *testing.T) {
+	resetNotes()
 	pbt.Run(t, pbt.Spec[WsCase]{
 		ID: "C13", Name: "rtsp-websocket", Gen: genWsCase(false), Run: runWs, Classify: classifyWs, Isolate: true,
 		Quick: 400, Thorough: 2000,
@@ -422,6 +420,7 @@ func TestRtspWebsocket(t *testing.T) {
 // allocation the peer never backs with data).  The test binary runs under `ulimit -v` (check.json mem_limit_mb), so
 // an attempted multi-gigabyte allocation is a deterministic fatal error of the process, attributed to lal by the driver.
 func TestWsFrameLength(t *testing.T) {
+	resetNotes()
 	pbt.Run(t, pbt.Spec[WsCase]{
 		ID: "C13", Name: "ws-frame-length", Gen: genWsCase(true), Run: runWs, Classify: classifyWs, Isolate: true,
 		Quick: 150, Thorough: 800,
